@@ -25,12 +25,17 @@ impl Sut for GL {
     fn random_cmd(rng: &mut Rng, _sh: &Shadow) -> Cmd {
         let k = ["insert", "insert_after", "insert_before"][rng.below(3)];
         // a = [position mode, raw index]: 0 = head, 1 = tail, otherwise raw index modulo the live length
-        Cmd::new(k, vec![rng.below(4) as u64, rng.below(250) as u64])
+        // a[2] = 1: (equal-values configuration only) insert a value that is already in the list
+        Cmd::new(k, vec![rng.below(4) as u64, rng.below(250) as u64, rng.below(3) as u64, rng.below(250) as u64])
     }
     fn gen(&self, _actor: A, cmd: &Cmd, sh: &mut Shadow, _old: &Self) -> Option<Gen<Self::Op>> {
         let before: Vec<u32> = self.read::<Vec<&u32>>().into_iter().cloned().collect();
         let len = before.len();
-        let elem = sh.uniq();
+        let mut elem = sh.uniq();
+        if sh.equal_vals && len > 0 && cmd.arg(2) == 1 {
+            // GList uses the element itself as the identifier's marker: equal values next to each other are legal
+            elem = before[cmd.arg(3) as usize % len];
+        }
         let mut model = before.clone();
         let (mode, raw) = (cmd.arg(0), cmd.arg(1) as usize);
         let pick = |n: usize| -> usize {
